@@ -210,4 +210,107 @@ Proof.
 Qed.
 
 End OneStep.
+
+(* ================================================================== *)
+(* The dispatch loop                                                   *)
+(* ================================================================== *)
+
+(* the state in which `_run` dispatches the instruction at the current position *)
+Definition pre_state (s : state) : state := tick (set_rem s (N.pred (st_rem s))).
+
+(* the (instruction pointer, state) pairs at the head of the loop, from (ip, s) on *)
+Inductive reaches (ip : N) (s : state) : N -> state -> Prop :=
+| reach_refl : reaches ip s ip s
+| reach_step ip1 s1 ip2 s2 : reaches ip s ip1 s1 -> (ip1 < code_len P)%N -> N.pred (st_rem s1) <> 0%N ->
+    step F bld P reenter ip1 (pre_state s1) = SNext ip2 s2 -> reaches ip s ip2 s2.
+
+Lemma reaches_trans ip s ip1 s1 ip2 s2 : reaches ip s ip1 s1 -> reaches ip1 s1 ip2 s2 -> reaches ip s ip2 s2.
+Proof. intros H1 H2. induction H2; [exact H1 | eapply reach_step; eauto]. Qed.
+
+(* every instruction that the loop dispatches meets the non-structural conditions *)
+Definition sides_hold (ip : N) (s : state) : Prop :=
+  forall ip' s', reaches ip s ip' s' -> (ip' < code_len P)%N -> N.pred (st_rem s') <> 0%N -> side ip' (pre_state s').
+
+Hypothesis re_paid : forall ip s, rres_R paid (cr s) (reenter ip s).
+
+Theorem loop_no_abort : forall fuel ip s,
+  vm_inv s -> ipok ip -> sides_hold ip s -> (st_rem s <= N.of_nat fuel)%N ->
+  match loop F bld P reenter fuel ip s with
+  | RStop _ _ => False
+  | ROk s' | RErr _ _ s' => vm_inv0 s' /\ length (st_heap s) <= length (st_heap s')
+  end.
+Proof.
+  induction fuel as [|f IH]; intros ip s Hinv Hip Hsides Hfuel.
+  - cbn [loop]. destruct (code_len P <=? ip)%N; [split; [apply Hinv | apply Nat.le_refl]|].
+    cbn [st_rem set_rem]. destruct (N.eqb_spec (N.pred (st_rem s)) 0); [|lia].
+    split; [apply inv_set_rem; apply Hinv | apply Nat.le_refl].
+  - cbn [loop]. destruct (N.leb_spec (code_len P) ip) as [Hge|Hlt]; [split; [apply Hinv | apply Nat.le_refl]|].
+    cbn [st_rem set_rem]. destruct (N.eqb_spec (N.pred (st_rem s)) 0) as [E0|E0];
+      [split; [apply inv_set_rem; apply Hinv | apply Nat.le_refl]|].
+    change (tick (set_rem s (N.pred (st_rem s)))) with (pre_state s).
+    assert (Hpre : step_pre3 ip (pre_state s)).
+    { split; [split; [apply inv_tick, inv_set_rem; apply Hinv | apply Hinv]|].
+      split; [apply Hip; exact Hlt|]. split; [exact Hlt|]. apply Hsides; [constructor | exact Hlt | exact E0]. }
+    pose proof (step_no_abort_all ip (pre_state s) Hpre) as Hns.
+    pose proof (step_preserves ip (pre_state s) Hpre) as Hpv.
+    pose proof (@step_count_rel paid paid_refl paid_trans F bld P reenter re_paid ip (pre_state s)) as Hcnt.
+    unfold pre_state in Hcnt at 1. rewrite tick_cr in Hcnt. cbn [st_count st_rem set_rem] in Hcnt.
+    destruct (step F bld P reenter ip (pre_state s)) as [ip' s'|s'|e ip' s'|a s'] eqn:Es.
+    + destruct Hpv as ([I' Hl'] & Hc' & Hip'). cbn [sres_R] in Hcnt. unfold paid, cr in Hcnt. cbn [fst snd] in Hcnt.
+      specialize (IH ip' s' (conj I' Hc') Hip').
+      assert (Hs' : sides_hold ip' s').
+      { intros ip2 s2 Hr. apply Hsides. eapply reaches_trans; [|exact Hr]. eapply reach_step; [constructor | exact Hlt | exact E0 | exact Es]. }
+      specialize (IH Hs' ltac:(lia)).
+      destruct (loop F bld P reenter f ip' s'); try exact IH; (split; [apply IH|]; destruct IH as [_ IH]; cbn in Hl'; lia).
+    + destruct Hpv as [I' Hl']. split; [exact I' | exact Hl'].
+    + destruct Hpv as [I' Hl']. split; [exact I' | exact Hl'].
+    + exfalso. eapply Hns; reflexivity.
+Qed.
+
 End Final.
+
+(* ================================================================== *)
+(* Vm::run                                                             *)
+(* ================================================================== *)
+
+Lemma fresh_inv0 P start : vm_inv0 P start fresh_state.
+Proof.
+  constructor.
+  - unfold cap. cbn [fresh_state st_stack vs_new vdata vcount]. rewrite repeat_length. unfold stack_size. lia.
+  - exact (fresh_stack_closed []).
+  - intros v [].
+  - intros a o H. unfold hget in H. cbn [fresh_state st_heap] in H. destruct (N.to_nat a); discriminate.
+  - intros fr [].
+  - exists []. split; constructor.
+Qed.
+
+(* A run of [P] from a state [s] that satisfies the structural invariant (a new Vm, or the state a previous run
+   left) never aborts, provided the nested runs keep their contract and every instruction the top-level loop
+   dispatches meets [side] (acyclic heap, ...). *)
+Theorem run_no_abort : forall F bld P start budget s,
+  code_ok P start ->
+  reenter_ok P (run_at F bld P false (N.of_nat budget) 129) start ->
+  vm_inv0 P start s ->
+  (forall s1, push_frame s (mkFrame 0 0 0 None) = Some s1 ->
+     sides_hold F bld P (run_at F bld P false (N.of_nat budget) 129) 0 (set_rem s1 (N.of_nat budget))) ->
+  forall a, fst (run F bld budget P s) <> OAbort a.
+Proof.
+  intros F bld P start budget s Hcode Hre Hi Hsides a. unfold run, run_gen.
+  destruct (push_frame s (mkFrame 0 0 0 None)) as [s1|] eqn:E1; [|discriminate].
+  assert (Hf : frame_ok P start s (mkFrame 0 0 0 None)).
+  { split; [cbn [fr_off]; destruct (vi_stack P start s Hi); change (N.to_nat 0) with 0; lia|].
+    split; [apply (co_zero P start Hcode) | intros ca Eca; discriminate]. }
+  destruct (inv_push_frame P start _ _ _ E1 Hi Hf) as (I1 & Hh1 & Hc1 & _).
+  change max_depth with (S 129). cbn [run_at]. unfold run_loop.
+  pose proof (loop_no_abort F bld P (run_at F bld P false (N.of_nat budget) 129) start Hcode Hre
+                (run_at_paid F bld P (N.of_nat budget) 129)
+                (N.to_nat (st_rem (set_rem s1 (N.of_nat budget)))) 0 (set_rem s1 (N.of_nat budget))) as H.
+  destruct (loop _ _ _ _ _ _ _) as [s'|e ip' s'|ab s'].
+  - cbn. discriminate.
+  - cbn. discriminate.
+  - exfalso. apply H.
+    + split; [apply inv_set_rem; exact I1 | cbn [set_rem st_calls]; rewrite Hc1; discriminate].
+    + apply (co_zero P start Hcode).
+    + apply Hsides. reflexivity.
+    + rewrite N2Nat.id. apply N.le_refl.
+Qed.
